@@ -86,6 +86,18 @@ mod scripting;
 mod shell;
 mod signals;
 
+// verification hooks (compiled only with `--cfg cicada_verif`)
+#[cfg(cicada_verif)]
+mod completers;
+#[cfg(cicada_verif)]
+mod highlight;
+#[cfg(cicada_verif)]
+mod prompt;
+#[cfg(cicada_verif)]
+extern crate yaml_rust;
+#[cfg(cicada_verif)]
+pub mod verif_hooks;
+
 /// Represents an error calling `exec`.
 pub use crate::types::CommandResult;
 pub use crate::types::LineInfo;
